@@ -60,6 +60,9 @@ func (x *Exec) calleeContract(call *ssa.CallCommon) (*Contract, calleeKind) {
 		if v.Parent() != nil {
 			return nil, calleeInline // function literal
 		}
+		if v.Synthetic != "" && len(v.Blocks) > 0 && (strings.HasPrefix(v.Synthetic, "wrapper for") || strings.HasPrefix(v.Synthetic, "bound method wrapper")) {
+			return nil, calleeInline // promoted-method / bound-method wrapper: its body is the call of the real method
+		}
 		if strings.HasPrefix(v.Name(), "init#") && v.Pkg == x.fn.Pkg {
 			return nil, calleeInline // declared init() function of the package being initialised
 		}
@@ -631,7 +634,21 @@ func (x *Exec) applyContract(s *State, c *Contract, call *ssa.CallCommon, args [
 				}
 			}
 			if id, ok := a.(*spec.Ident); ok && id.Name == "unrestricted" {
-				x.havocAllHeap(s, tag) // everything except write-restricted entries this callee cannot reach
+				// every real heap entry except write-restricted ones this callee cannot reach; ghost variables only
+				// change when a contract lists them
+				keep := map[string]bool{}
+				for k, v := range x.havocKeep {
+					keep[k] = v
+				}
+				for h := range x.E.HeapSorts {
+					if strings.HasPrefix(h, "GV$") {
+						keep[h] = true
+					}
+				}
+				saved := x.havocKeep
+				x.havocKeep = keep
+				x.havocAllHeap(s, tag)
+				x.havocKeep = saved
 				continue
 			}
 			preEnv := *callerEnv
